@@ -25,6 +25,7 @@ func checkC09(p *Prog, r *Report) {
 	ruleC09LoopInfo(p, a, r)
 	ruleC09Idx(p, a, r)
 	ruleC09Ifchanged(p, a, r)
+	ruleC09Shared(p, a, r)
 }
 
 func ruleC09State(p *Prog, a *Anchors, r *Report) {
@@ -71,6 +72,90 @@ func ruleC09State(p *Prog, a *Anchors, r *Report) {
 	if n == 0 {
 		r.Trivial("stores", "-", "0 stores into tagCycleNode/tagIfchangedNode reachable from execution")
 	}
+}
+
+// ruleC09Shared: the map in which cycle/ifchanged keep their state is one per rendering: made when the root execution
+// context is made and handed on by reference to every child context. (If it is made lazily by whichever context
+// stores first, a tag in a nested loop writes into a map its siblings and later iterations never see.)
+func ruleC09Shared(p *Prog, a *Anchors, r *Report) {
+	r.Begin("R-C09-SHARED", "the per-rendering state map of cycle/ifchanged is allocated with the root execution context and shared by reference with every child context", 2)
+	// the field: ExecutionContext.<f> of map type that the two tags' state is written into
+	fields := map[string]bool{}
+	for _, typ := range []string{"tagCycleNode", "tagIfchangedNode"} {
+		f := p.Method(typ, "Execute")
+		if f == nil {
+			continue
+		}
+		for _, fn := range p.inPkgFuncsSorted(p.Reach(p.CG, []*ssa.Function{f}, map[*ssa.Function]bool{a.NewTemplate: true})) {
+			for _, b := range fn.Blocks {
+				for _, in := range b.Instrs {
+					if mu, ok := in.(*ssa.MapUpdate); ok {
+						if _, n, fld := fieldLoadBase(mu.Map); n != nil && n.Obj().Name() == "ExecutionContext" && fld != "Private" && fld != "Public" && fld != "Shared" {
+							fields[fld] = true
+						}
+					}
+				}
+			}
+		}
+	}
+	if len(fields) != 1 {
+		r.Unk("state-field", "-", "expected exactly one ExecutionContext map field holding tag state, found %v", sortedKeys(fields))
+		return
+	}
+	field := sortedKeys(fields)[0]
+	newChild := p.Func("NewChildExecutionContext")
+	var rootCtor *ssa.Function
+	// the root constructor: the function allocating an ExecutionContext that is not NewChildExecutionContext and is
+	// called from the execution funnel
+	p.EachInstr(func(f *ssa.Function, in ssa.Instruction) {
+		if al, ok := in.(*ssa.Alloc); ok && f != newChild {
+			if pt, ok := al.Type().(*types.Pointer); ok && types.Identical(pt.Elem(), a.ExecCtx) && p.InPkg(f) {
+				rootCtor = f
+			}
+		}
+	})
+	if newChild == nil || rootCtor == nil {
+		r.Unk("anchor", "-", "anchor unresolved: NewChildExecutionContext / the root context constructor")
+		return
+	}
+	check := func(f *ssa.Function, key string, want func(v ssa.Value) bool, okMsg, badMsg string) {
+		var st *ssa.Store
+		n := 0
+		for _, b := range f.Blocks {
+			for _, in := range b.Instrs {
+				if s, ok := in.(*ssa.Store); ok && isFieldAddrOf(s.Addr, "ExecutionContext", field) {
+					st = s
+					n++
+				}
+			}
+		}
+		switch {
+		case n == 0:
+			r.Bad(key, p.Pos(f.Pos()), "%s does not set ExecutionContext.%s: %s", p.FuncName(f), field, badMsg)
+		case n > 1 || !want(st.Val):
+			r.Bad(key, p.InstrPos(st), "ExecutionContext.%s is set to %s: %s", field, p.VN(st.Val), badMsg)
+		default:
+			// on every path to the return
+			ok := true
+			for _, ret := range returnsOf(f) {
+				if !MustPass(ret, func(x ssa.Instruction) bool { return x == ssa.Instruction(st) }) {
+					ok = false
+				}
+			}
+			if ok {
+				r.OK(key, p.InstrPos(st), "%s", okMsg)
+			} else {
+				r.Bad(key, p.InstrPos(st), "ExecutionContext.%s is not set on every path: %s", field, badMsg)
+			}
+		}
+	}
+	check(rootCtor, p.FuncName(rootCtor)+":alloc", func(v ssa.Value) bool { _, ok := v.(*ssa.MakeMap); return ok },
+		"the root context gets a freshly made state map", "without a map made here, the first tag that stores state makes one in its own (child) context only")
+	check(newChild, "NewChildExecutionContext:share", func(v ssa.Value) bool {
+		base, n, fld := fieldLoadBase(v)
+		_, isParam := base.(*ssa.Parameter)
+		return n != nil && n.Obj().Name() == "ExecutionContext" && fld == field && isParam
+	}, "the child context refers to its parent's state map", "a child context with its own (or no) state map hides the positions stored by the tags executed in it from the next iteration")
 }
 
 // branchShape describes an ifequal-like Execute: result = EqualValueTo(first, second) [negated?]; then/else wrappers.
